@@ -108,35 +108,40 @@ func init() {
 					valPrm = prm // the last string parameter: the value
 				}
 			}
+			stores := map[ssa.Instruction]bool{}
+			eachInstr(fn, func(in ssa.Instruction) {
+				if st, ok := in.(*ssa.Store); ok && valPrm != nil && st.Val == ssa.Value(valPrm) {
+					stores[in] = true
+				}
+			})
 			n := 0
 			eachInstr(fn, func(in ssa.Instruction) {
-				st, ok := in.(*ssa.Store)
-				if !ok || valPrm == nil || st.Val != ssa.Value(valPrm) {
+				ifi, ok := in.(*ssa.If)
+				if !ok {
+					return
+				}
+				b, ok := ifi.Cond.(*ssa.BinOp)
+				if !ok || b.Op != token.EQL {
+					return
+				}
+				isKeyTest := false
+				for _, side := range []ssa.Value{b.X, b.Y} {
+					if fl := loadedField(side); fl != nil && fieldIs(fl, "key") {
+						isKeyTest = true
+					}
+				}
+				if !isKeyTest {
 					return
 				}
 				n++
+				found := ifi.Block().Succs[0]
 				bad := ""
-				for _, g := range controllingIfs(st) {
-					for _, leaf := range condLeaves(g.If.Cond) {
-						walkCond(leaf, func(v ssa.Value) {
-							cl, ok := v.(*ssa.Call)
-							if !ok {
-								return
-							}
-							for _, a := range callArgs(&cl.Call) {
-								for _, o := range append(p.origins(a, OriginOpts{Depth: 1}), a) {
-									if fl := loadedField(o); fl != nil && fieldIs(fl, "val") {
-										bad = p.instrPos(g.If)
-									}
-								}
-							}
-						})
-						if fl := loadedField(leaf); fl != nil && fieldIs(fl, "val") {
-							bad = p.instrPos(g.If)
-						}
+				if len(found.Instrs) > 0 && !stores[found.Instrs[0]] {
+					if r := pathAvoiding(found.Instrs[0], func(x ssa.Instruction) bool { _, isRet := x.(*ssa.Return); return isRet }, func(x ssa.Instruction) bool { return stores[x] }); r != nil {
+						bad = p.instrPos(r)
 					}
 				}
-				c.check(bad == "", fmt.Sprintf("setStyleDecl: the value is stored#%d whatever was there", n), p.instrPos(st), "no condition looks at the existing value", "the condition at "+bad+" looks at the declaration's existing value before the new one is stored: some existing values survive the setter — `display:none` from v-show does not reach an element whose style says `display:flex !important`")
+				c.check(len(stores) > 0 && bad == "", fmt.Sprintf("setStyleDecl: a found property gets the new value#%d", n), p.instrPos(ifi), "every way from the match to a return stores the value", "from the place where the property was found, the return at "+bad+" is reachable without the new value having been stored: some existing declarations survive the setter — `display:none` from v-show does not reach an element whose style says `display:flex !important`")
 			})
 			if n == 0 {
 				undecided("setStyleDecl stores its value parameter nowhere")
@@ -193,10 +198,8 @@ func init() {
 				// (appending the rest of a component file to the evaluated root is C05.R10's business: only a list
 				// derived from the evaluated children alone counts here)
 				direct := false
-				for _, o := range p.origins(r.Results[0], OriginOpts{}) {
-					if ex, ok := o.(*ssa.Extract); ok && ex.Tuple == ssa.Value(fromEval) {
-						direct = true
-					}
+				if ex, ok := r.Results[0].(*ssa.Extract); ok && ex.Tuple == ssa.Value(fromEval) {
+					direct = true
 				}
 				c.check(direct || filtered == "", fmt.Sprintf("evalTemplate: return#%d hands back the evaluated children", n), p.instrPos(r), "the list evaluateChildren returned", "the evaluated children are rebuilt before they are returned (at "+filtered+"): nodes are dropped after evaluation — an instance that printed only blanks returns nothing, and v-for takes a non-empty collection for an empty one")
 			}
@@ -320,6 +323,213 @@ func init() {
 				c.check(!same, fmt.Sprintf("evalVFor: %s#%d gets a node without v-for", strings.TrimPrefix(nm, "(*vuego.Vue)."), n), p.instrPos(site), "not the looped element itself", "the looped element is handed back to the evaluator as it stands, v-for attribute included: evaluate() sends every element that *has* the attribute to evalVFor again — an element with an empty v-for recurses until the stack is exhausted")
 			}
 			c.ok("evalVFor: re-entries examined", p.pos(fn.Pos()), fmt.Sprintf("%d", n))
+		},
+	})
+}
+
+func inModuleName(nm string) bool {
+	return !strings.Contains(nm, "(reflect.") && strings.HasPrefix(nm, "reflect.")
+}
+
+// fieldStoresOf: the values stored into the fields of a struct allocated here.
+func fieldStoresOf(al *ssa.Alloc) []ssa.Value {
+	var out []ssa.Value
+	if al.Referrers() == nil {
+		return out
+	}
+	for _, r := range *al.Referrers() {
+		if fa, ok := r.(*ssa.FieldAddr); ok && fa.Referrers() != nil {
+			for _, rr := range *fa.Referrers() {
+				if st, ok := rr.(*ssa.Store); ok && st.Addr == ssa.Value(fa) {
+					out = append(out, st.Val)
+				}
+			}
+		}
+	}
+	return out
+}
+
+func init() {
+	register(&Rule{
+		ID: "C13.R30", Props: []string{"C13", "C03", "C09"}, Min: 1,
+		Doc: "the evaluator's environment is the scope and nothing else: ExprEvaluator.Eval does not write into the environment map it is given (no entry is added or changed) — registered functions in particular do not become variables. An undefined name that happens to be a function's name (`title`, `default`, `json`) must stay undefined: `v-if=\"title\"` is false for a page without a title; and the map is the caller's (Stack.EnvMap's result, a slot's props)",
+		Run: func(p *Prog, c *Ctx) {
+			fn := p.MustFn("(*vuego.ExprEvaluator).Eval")
+			var env *ssa.Parameter
+			for _, prm := range fn.Params {
+				if _, ok := prm.Type().Underlying().(*types.Map); ok {
+					env = prm
+				}
+			}
+			if env == nil {
+				undecided("Eval takes no environment map")
+			}
+			bad := ""
+			walkFuncTree(fn, func(f *ssa.Function) {
+				eachInstr(f, func(in ssa.Instruction) {
+					if mu, ok := in.(*ssa.MapUpdate); ok {
+						for _, o := range append(p.origins(mu.Map, OriginOpts{}), mu.Map) {
+							if o == ssa.Value(env) {
+								bad = p.instrPos(mu)
+							}
+						}
+					}
+				})
+			})
+			c.check(bad == "", "Eval: the environment is read, not written", p.pos(fn.Pos()), "no map update on the env parameter", "Eval stores into the environment map it was handed (at "+bad+"): names the template never defined become defined — a function's name as an undefined variable is truthy in v-if / v-show and not nil in comparisons, while {{ }} still prints nothing")
+		},
+	})
+
+	register(&Rule{
+		ID: "C14.R24", Props: []string{"C14"}, Min: 1,
+		Doc: "a bound attribute meets the static attribute of the same *key*: where evalAttributes looks for the static twin of `:name`, it compares attribute keys as they are — not a name derived from a key (brackets stripped, case folded, prefix cut). `[title]` is a literal attribute that is written as it stands; taken for the twin of `:title` it is overwritten, appended to or merged",
+		Run: func(p *Prog, c *Ctx) {
+			fn := p.MustFn("(*vuego.Vue).evalAttributes")
+			n := 0
+			eachInstr(fn, func(in ssa.Instruction) {
+				b, ok := in.(*ssa.BinOp)
+				if !ok || b.Op != token.EQL || !isString(b.X.Type()) {
+					return
+				}
+				if _, isC := b.X.(*ssa.Const); isC {
+					return
+				}
+				if _, isC := b.Y.(*ssa.Const); isC {
+					return
+				}
+				// one side is (derived from) an attribute's Key, the other is not a constant: a twin search
+				for _, side := range []ssa.Value{b.X, b.Y} {
+					direct := false
+					derived := ""
+					if fl := loadedField(side); fl != nil && fieldIs(fl, "Key") {
+						direct = true
+					}
+					if f, ok := side.(*ssa.Field); ok {
+						if fv := fieldVar(f); fv != nil && fieldIs(fv, "Key") {
+							direct = true
+						}
+					}
+					if !direct {
+						for _, o := range p.origins(side, OriginOpts{}) {
+							var src ssa.Value
+							switch x := o.(type) {
+							case *ssa.Slice:
+								src = x.X
+							case *ssa.Call:
+								if len(x.Call.Args) > 0 {
+									src = x.Call.Args[0]
+								}
+							}
+							if src == nil {
+								continue
+							}
+							for _, oo := range append(p.origins(src, OriginOpts{}), src) {
+								if fl := loadedField(oo); fl != nil && fieldIs(fl, "Key") {
+									derived = p.instrPos(b)
+								}
+								if f, ok := oo.(*ssa.Field); ok {
+									if fv := fieldVar(f); fv != nil && fieldIs(fv, "Key") {
+										derived = p.instrPos(b)
+									}
+								}
+							}
+						}
+					}
+					if direct || derived != "" {
+						n++
+						c.check(derived == "", fmt.Sprintf("evalAttributes: attribute keys are compared as they are#%d", n), p.instrPos(b), "the Key itself", "the comparison at "+derived+" matches a name *derived* from an attribute's key against a bound name: attributes whose key only resembles the bound name (a bracketed literal attribute) are taken for its static twin and overwritten or merged")
+						return
+					}
+				}
+			})
+			if n == 0 {
+				undecided("evalAttributes compares no attribute key with a computed name")
+			}
+		},
+	})
+
+	register(&Rule{
+		ID: "C17.R24", Props: []string{"C17", "C04"}, Min: 1,
+		Doc: "ForEach iterates what it dereferenced: the collection that Stack.ForEach walks (SliceToAny, Len / Index, MapKeys) is the value *after* its pointer-following loop — nothing hands the raw result of Resolve to a helper that does not follow pointers. `names: &list` resolves by path (`names[1]`) and must loop the same way; fed to SliceToAny as a pointer it yields nil, and the loop renders nothing without an error",
+		Run: func(p *Prog, c *Ctx) {
+			fn := p.MustFn("(*vuego.Stack).ForEach")
+			n := 0
+			walkFuncTree(fn, func(f *ssa.Function) {
+				for _, site := range callsIn(f) {
+					nm := calleeName(site.Common())
+					if !strings.HasPrefix(nm, "reflect.") || !inModuleName(nm) {
+						continue
+					}
+					if !strings.HasSuffix(nm, "SliceToAny") && !strings.HasSuffix(nm, "IsSlice") {
+						continue
+					}
+					n++
+					raw := false
+					for _, a := range callArgs(site.Common()) {
+						for _, o := range append(p.origins(a, OriginOpts{}), a) {
+							if ex, ok := o.(*ssa.Extract); ok {
+								if cl, ok := ex.Tuple.(*ssa.Call); ok && calleeName(&cl.Call) == "(*vuego.Stack).Resolve" {
+									raw = true
+								}
+							}
+						}
+					}
+					c.check(!raw, fmt.Sprintf("ForEach: %s#%d gets the dereferenced value", nm, n), p.instrPos(site), "not the raw result of Resolve", "the value Resolve returned is handed to "+nm+" as it is, before (or instead of) the pointer-following loop: a collection bound through a pointer is not recognised and the loop visits nothing")
+				}
+			})
+			c.ok("ForEach: helpers examined", p.pos(fn.Pos()), fmt.Sprintf("%d", n))
+		},
+	})
+
+	register(&Rule{
+		ID: "C18.R13", Props: []string{"C18"}, Min: 1,
+		Doc: "a path no layer has is reported as not existing: the error Open returns after it has asked every layer is fs.ErrNotExist (or wraps it: the returned value comes from that variable) — not whatever the last layer said, and never a PathError around a nil error. errors.Is(err, fs.ErrNotExist) is how callers (the loader, the default-layout probe) tell `absent` from `broken`",
+		Run: func(p *Prog, c *Ctx) {
+			fn := p.MustFn("(*vuego.OverlayFS).Open")
+			n := 0
+			for _, r := range returnsOf(fn) {
+				if len(r.Results) < 2 || isNilConst(r.Results[1]) {
+					continue
+				}
+				// returns inside the walk hand on a layer's own answer; the one after the walk is the overlay's
+				if loopHeaderOf(r.Block()) != nil {
+					continue
+				}
+				n++
+				notExist := false
+				var walk func(v ssa.Value, d int)
+				seen := map[ssa.Value]bool{}
+				walk = func(v ssa.Value, d int) {
+					if v == nil || seen[v] || d > 6 {
+						return
+					}
+					seen[v] = true
+					for _, o := range append(p.origins(v, OriginOpts{}), v) {
+						if ld, ok := o.(*ssa.UnOp); ok && ld.Op == token.MUL {
+							if g, ok := ld.X.(*ssa.Global); ok && g.Name() == "ErrNotExist" {
+								notExist = true
+							}
+						}
+						switch x := o.(type) {
+						case *ssa.MakeInterface:
+							walk(x.X, d+1)
+						case *ssa.Alloc:
+							for _, st := range fieldStoresOf(x) {
+								walk(st, d+1)
+							}
+						case *ssa.Call:
+							for _, a := range callArgs(&x.Call) {
+								walk(a, d+1)
+							}
+						}
+					}
+				}
+				walk(r.Results[1], 0)
+				c.check(notExist, fmt.Sprintf("Open: the error after the walk#%d is fs.ErrNotExist", n), p.instrPos(r), "comes from io/fs.ErrNotExist", "the error Open returns for a path that no layer has does not come from fs.ErrNotExist (it is the last layer's error, or a PathError around nothing): callers that ask errors.Is(err, fs.ErrNotExist) take an absent file for a broken one — or dereference a nil error")
+			}
+			if n == 0 {
+				undecided("Open has no error return after its walk")
+			}
 		},
 	})
 }
